@@ -282,7 +282,7 @@ func ghostAddOnly(idx *WorkspaceIndex, path string, fi *FileIndex) {
 // (pointwise: whatever agreement held for a path before still holds), and re-registering a path that is already
 // present does not touch FileOrder: the order of the include tree is a function of the tree, not of the edit history.
 //@ func (*Workspace).updateResolvedLocked
-//@   props C09 C12 C15
+//@   props C09 C12 C15 C16 C18 C20
 //@   requires w != nil && (w.resolved != nil ==> w.resolved.Files != nil)
 //@   ensures [nonnil] w.resolved != nil && w.resolved.Files != nil && (old(w.resolved) != nil ==> w.resolved == old(w.resolved))
 //@   ensures [created] old(w.resolved) == nil ==> fresh(w.resolved) && fresh(w.resolved.Files)
